@@ -33,7 +33,7 @@ theorem C14_negotiation (e : Ep) (p : PeerInit) :
   obtain ⟨a, b, c, d, f, _⟩ := setState_fields (mergeSession
     { (if e.cfg.passive then sendInit e else e) with peerInit := some p, inSess := true } p) "established"
   rw [a, b, c, d, f]
-  cases e.cfg.passive <;> simp [mergeSession, kaReset, idleReset, sendInit, sendMessage]
+  cases e.cfg.passive <;> simp [mergeSession, kaReset, idleReset, sendInit, sendMessage, sendReady]
 
 /-- keepalive 0 on either side disables the keepalive timer; otherwise it is armed one interval ahead -/
 theorem C14_keepalive_armed (e : Ep) (p : PeerInit) :
@@ -44,7 +44,7 @@ theorem C14_keepalive_armed (e : Ep) (p : PeerInit) :
   obtain ⟨_, _, _, _, _, g⟩ := setState_fields (mergeSession
     { (if e.cfg.passive then sendInit e else e) with peerInit := some p, inSess := true } p) "established"
   rw [g]
-  cases e.cfg.passive <;> simp [mergeSession, kaReset, idleReset, sendInit, sendMessage]
+  cases e.cfg.passive <;> simp [mergeSession, kaReset, idleReset, sendInit, sendMessage, sendReady]
 
 /-- every message sent re-arms the keepalive timer one interval after *now* and the idle timer one idle
     time after *now* (so a KEEPALIVE is due exactly when the interval elapses with nothing else sent) -/
@@ -62,7 +62,7 @@ theorem C14_keepalive_fires (e : Ep) (d : Nat) (hc : e.closed = false) (hd : e.k
     (step e .keepaliveTimer).1.emitted = e.emitted ++ [.keepalive]
     ∧ (step e .keepaliveTimer).1.kaDeadline = (if e.kaTime > 0 then some (e.now + e.kaTime * 1000) else none) := by
   unfold step
-  simp [hc, hd, sendMessage, kaReset, idleReset]
+  simp [hc, hd, sendMessage, sendReady, kaReset, idleReset]
 
 /-- the idle timer firing while established and not terminating starts termination with reason
     idle-timeout (1), not marked as reply -/
@@ -71,7 +71,7 @@ theorem C14_idle_terminates (e : Ep) (d : Nat) (hc : e.closed = false) (hd : e.i
     (step e .idleTimer).1.emitted = e.emitted ++ [.sessTerm 0 1] ∧ (step e .idleTimer).1.inTerm = true := by
   unfold step sendSessTerm
   simp only [hc, hd, hs, ht, Bool.false_eq_true, if_false, Bool.not_true]
-  simp only [flushPendStart, sendMessage, kaReset, idleReset, setState]
+  simp only [flushPendStart, sendMessage, sendReady, kaReset, idleReset, setState]
   split <;> simp
 
 /-- … and an endpoint that is already terminating and hears nothing further ends by closing -/
